@@ -63,7 +63,7 @@ PROPS = {
         'design_ref': 'DESIGN.md §5 U9, §6 C19',
     },
     'C07': {
-        'verus': ['program_state', 'interp_api'],
+        'verus': ['program_state', 'interp_api', 'expressions'],
         'kani': [],
         'level': 'proof',
         'design_ref': 'DESIGN.md §6 C07',
@@ -128,7 +128,7 @@ UNDECIDED = {
     'C06': ["statement-level agreement (assignment / FOR / NEXT / READ kind checks in statement_analyzer.rs vs statement.rs) and the converse direction need both evaluators executed: undecided", "operand parsing below the unary tier (evaluate_parenthesized_expression: terms, calls, array subscripts) is an assumed contract", "termination of the tier loops is not claimed (exec_allows_no_decreases_clause)"],
     'C08': ["the THEN/ELSE interplay (an INPUT inside THEN resumes in front of ELSE, which is then a syntax error) is intended-behaviour-adjacent: the suite requires UNEXPECTED TOKEN for an ELSE reached as a statement; not decided, not reported", "EXTRA IGNORED / REENTER records are appended by evaluate_input_statement (proved to keep the state well formed) but their exact conditions are not specified here", "reply parsing (parse_data_until_colon) is the DATA item parser: an uninterpreted function of the text"],
     'C19': ["the page script (abasic-web/ts/main.ts) is TypeScript: its protocol is an assumption, transliterated in L_page_protocol; the start-up loader (start_evaluating per line with no error check in between) violates the adapter's precondition when a line fails - outside this check's reach", "Interpreter::start_evaluating / evaluate_impl contract is assumed (AsRef<str>, Tokenizer)", "output record text (Display) and error text + caret: fmt, undecided"],
-    'C07': ["a failing user-function call leaves its frame on the stack (expression.rs:91-97): evaluate_user_defined_function_call iterates with into_iter().enumerate(), which Verus has no specification for, and Kani cannot execute it through Interpreter - undecided, not reported by this check", "that STOP and the host break both reach Program::break_at_current_location (statement.rs:28, interpreter.rs:115) is read, not proved"],
+    'C07': ["expression evaluation (user-defined function calls included) is proved to hand the call stack back as it found it, on success and on failure (unit expressions, after normalisation N9 of the argument loop's `.enumerate()`); the statement evaluator sees the expression evaluator through an assumed contract that does not yet repeat this clause", "transparency itself (same output / input requests / outcome as the uninterrupted run) is concluded from the per-call facts - break records the location and keeps stack, loops, DATA cursor, functions; CONT restores exactly that; idle transitions keep pending reply and output - not proved as a statement about two runs", "that STOP and the host break both reach Program::break_at_current_location (statement.rs:28, interpreter.rs:115) is read, not proved"],
     'C09': ["the expression evaluator is an assumed contract (a successful expression only moves the cursor forward on its line); user-defined function calls inside expressions are therefore outside the per-call work bound, as the property itself allows", "READ's loop over its variable list and PRINT's loop are not given a termination measure (partial correctness)"],
     'C10': ["the RUN arm of maybe_process_command is outside Verus (fmt in sibling arms); Kani checks it for an empty stored program only (pending reply, state, tracing flag); fresh Variables/Arrays are two assignments of Default::default(), read not proved"],
     'C11': ["end_loop returning NEXT WITHOUT FOR on a missing loop; next_data_element rebuilding the cursor (closure) - read, not proved"],
